@@ -71,12 +71,13 @@ def from_node(node: Union[NodeTemplate, EdgeTemplate], return_dict: dict, base: 
     """Reformat operator structure into a dictionary that can be saved as YAML template.
     """
 
-    new_dict = {'base': base, 'operators': []}
-
-    # collect operator definitions
+    # collect operator definitions: the operator template is written as it is (one definition per operator template),
+    # the values this node sets for its variables stay at the node: `operators: {<operator>: {<variable>: <value>}}`
+    operators = {}
     for op, updates in node.operators.items():
-        opkey = from_operator(op=op, updates=updates, return_dict=return_dict)
-        new_dict['operators'].append(opkey)
+        opkey = from_operator(op=op, updates={}, return_dict=return_dict)
+        operators[opkey] = dict(updates) if updates else {}
+    new_dict = {'base': base, 'operators': operators if any(operators.values()) else list(operators)}
 
     # add node information to the return dictionary
     return add_to_dict(node, new_dict, return_dict)
